@@ -968,7 +968,7 @@ func callBuiltin(caller *frame, callpos token.Pos, fn *ssa.Builtin, args []value
 			return arg0
 		}
 		// append([]T, ...[]T) []T
-		return goAppend(args[0].([]value), args[1].([]value))
+		return goAppend(args[0].([]value), cloneCells(args[1].([]value)))
 
 	case "copy": // copy([]T, []T) int or copy([]byte, string) int
 		src := args[1]
@@ -979,7 +979,7 @@ func callBuiltin(caller *frame, callpos token.Pos, fn *ssa.Builtin, args []value
 		case symstr:
 			src = []value(append(symstr(nil), sv...))
 		}
-		return copy(args[0].([]value), src.([]value))
+		return copy(args[0].([]value), cloneCells(src.([]value)))
 
 	case "close": // close(chan T)
 		caller.chanClose(args[0])
